@@ -141,6 +141,11 @@ EmitCase ==
   /\ \A var \in 1..2 :
        PrintT(ToJson([id |-> "rep" \o ToString(var) \o "-" \o ToString(i) \o "-" \o ToString(j), kind |-> "render", tm |-> "TraceC09",
                       a |-> a, b |-> b, prog |-> Prog, env |-> << <<A, a>>, <<B, b>> >>, repr |-> ReprFor(var)]))
+  \* two arrays of which one begins like the other, held as one slice and a shorter slice of the same storage; two
+  \* equal arrays or maps held as one and the same Go object
+  /\ (a.k \in {"arr", "map"} /\ b.k \in {"arr", "map"}) =>
+       PrintT(ToJson([id |-> "shr-" \o ToString(i) \o "-" \o ToString(j), kind |-> "render", tm |-> "TraceC09",
+                      a |-> a, b |-> b, prog |-> Prog, env |-> << <<A, a>>, <<B, b>> >>, repr |-> ("@share" :> "1")]))
   /\ PrintT(ToJson([id |-> "cmp-" \o ToString(i) \o "-" \o ToString(j), kind |-> "render", tm |-> "TraceC09",
                     a |-> a, b |-> b, prog |-> Prog, env |-> << <<A, a>>, <<B, b>> >>]))
   /\ PrintT(ToJson([id |-> "obj-" \o ToString(i) \o "-" \o ToString(j), kind |-> "render", tm |-> "TraceRender",
